@@ -33,6 +33,31 @@ def is_canon(r):
     return r.kind == "call" and r.name.endswith("FileSystem::canonicalize_path")
 
 
+def locate(P):
+    """-> (B, H, hcall): B = load_impl; H = the body that calls FileSystem::glob (B itself, or a local helper of the
+    loader that B calls exactly once); hcall = (bb, term) of that call in B, or None when H is B"""
+    b = P.body(LI)
+    def globs_in(x):
+        return [(bb, t) for bb, t in x.calls() if (callee_def(t) or "").endswith("FileSystem::glob")]
+    if len(globs_in(b)) == 1:
+        return b, b, None
+    cands = []
+    for k in sorted(P.callgraph().get(LI, ())):
+        x = P.bodies.get(k)
+        if x is None or x.is_closure or not mir.body_module(x).startswith(L) or not q.not_test(x) or x.key == LI:
+            continue
+        if len(globs_in(x)) == 1:
+            cands.append(x)
+    if len(cands) != 1:
+        raise mir.AnchorMissing("load_impl: no single place calls FileSystem::glob (in load_impl: %d, helpers: %s)"
+                                % (len(globs_in(b)), [c.key for c in cands]))
+    h = cands[0]
+    calls = [(bb, t) for bb, t in b.calls() if h.key in callee_names(t)]
+    if len(calls) != 1:
+        raise mir.AnchorMissing("load_impl calls its include helper %d times" % len(calls))
+    return b, h, calls[0]
+
+
 def run(P, chk, tier):
     chk.rule(R_SORT, "glob matches are sorted by Path order before the recursion, on the same vector")
     chk.rule(R_PLACE, "the recursive load happens inside the entry loop, over the sorted matches in order")
@@ -41,71 +66,92 @@ def run(P, chk, tier):
     chk.rule(R_PATH, "include paths are resolved against the including file's directory; the callback gets the including file's canonical path")
     chk.rule(R_OPTS, "both file systems glob with literal separator / literal leading dot / case sensitive")
     chk.rule(R_STACK, "the include stack tests, pushes and pops the canonical path of the file being loaded")
-    b = P.body(LI)
-    chk.analysed(b)
+    b, h, hcall = locate(P)
+    chk.analysed(b, h)
+    if h is not b:
+        chk.note("include resolution lives in the helper %s; its rules are evaluated there and tied back through the call in load_impl" % h.key)
     loops = b.loops()
-    globs = [(bb, t) for bb, t in b.calls() if (callee_def(t) or "").endswith("FileSystem::glob")]
+    globs = [(bb, t) for bb, t in h.calls() if (callee_def(t) or "").endswith("FileSystem::glob")]
     recs = [(bb, t) for bb, t in b.calls() if LI in callee_names(t)]
     if len(globs) != 1 or len(recs) != 1:
         chk.anchor_missing("load_impl: expected one glob and one recursive call, found %d / %d" % (len(globs), len(recs)))
         return
     gbb, gt = globs[0]
     rbb, rt = recs[0]
+    hbb = hcall[0] if hcall else None
 
-    def is_glob_vec(o):
-        return q.all_roots(b, o, lambda r: r.kind == "call" and r.site == gbb)
+    def is_glob_vec_h(o):
+        return q.all_roots(h, o, lambda r: r.kind == "call" and r.site == gbb)
 
-    # ---- sort
+    def is_vec_b(o):
+        site = gbb if h is b else hbb
+        return q.all_roots(b, o, lambda r: r.kind == "call" and r.site == site)
+
+    # ---- sort: in the helper (before every Ok return) or in load_impl (before the recursion)
+    MUT = ("reverse", "dedup", "retain", "truncate", "swap", "rotate_left", "rotate_right", "drain", "pop", "remove", "swap_remove",
+           "dedup_by_key", "dedup_by", "insert", "clear")
     sorts = []
-    for bb, t in b.calls():
-        m = (callee_def(t) or "").rsplit("::", 1)[-1]
-        if m.startswith("sort") and t["args"] and is_glob_vec(t["args"][0]):
-            sorts.append((bb, t, m))
-    ok = len(sorts) == 1 and b.must_pass_block(rbb, sorts[0][0])
+    for body, isvec, where in ((h, is_glob_vec_h, "h"), (b, is_vec_b, "b")):
+        if where == "b" and h is b:
+            continue
+        for bb, t in body.calls():
+            m = (callee_def(t) or "").rsplit("::", 1)[-1]
+            if m.startswith("sort") and t["args"] and isvec(t["args"][0]):
+                sorts.append((body, bb, t, m))
+    ok = len(sorts) == 1
     detail = "the recursion is not preceded (on every path) by exactly one sort of the glob result"
     if ok:
-        sbb, st_, m = sorts[0]
-        if m in ("sort", "sort_unstable"):
-            pass
-        elif m in ("sort_by", "sort_unstable_by"):
-            ok = comparator_is_path_ord(P, b, st_["args"][1])
-            detail = "the comparator is not Ord::cmp of the two paths (order would differ from Path's component-wise order)"
+        sbody, sbb, st_, m = sorts[0]
+        if sbody is b:
+            ok = b.must_pass_block(rbb, sbb)
         else:
-            ok = False
-            detail = "sorted by a derived key (%s): not the order of the paths themselves" % m
-        # nothing reorders / filters between the sort and the loop
-        for bb, t in b.calls():
-            if bb in (gbb, sbb, rbb) or not t["args"] or not any(is_glob_vec(a) for a in t["args"]):
-                continue
-            m2 = (callee_def(t) or "").rsplit("::", 1)[-1]
-            if m2 in ("reverse", "dedup", "retain", "truncate", "swap", "rotate_left", "rotate_right", "drain", "pop", "remove", "swap_remove"):
+            oks = [bb for bb, v, rv in q.ok_err_assignments(sbody) if v == "Ok"]
+            ok = bool(oks) and all(sbody.must_pass_block(o, sbb) for o in oks)
+            # and what is returned is that vector
+            for bb2, v, rv in q.ok_err_assignments(sbody):
+                if v == "Ok":
+                    ok = ok and is_glob_vec_h(rv["fields"][0]["op"])
+        if ok:
+            if m in ("sort", "sort_unstable"):
+                pass
+            elif m in ("sort_by", "sort_unstable_by"):
+                ok = comparator_is_path_ord(P, sbody, st_["args"][1])
+                detail = "the comparator is not Ord::cmp of the two paths (order would differ from Path's component-wise order)"
+            else:
                 ok = False
-                detail = "the match list is modified by %s" % m2
-    chk.require(ok, R_SORT, "load_impl|paths.sort before recursion", b.loc(sorts[0][0]) if sorts else b.loc(), detail,
+                detail = "sorted by a derived key (%s): not the order of the paths themselves" % m
+        for body, isvec in ((h, is_glob_vec_h), (b, is_vec_b)):
+            for bb, t in body.calls():
+                if not t["args"] or not any(isvec(a) for a in t["args"]):
+                    continue
+                m2 = (callee_def(t) or "").rsplit("::", 1)[-1]
+                if m2 in MUT:
+                    ok = False
+                    detail = "the match list is modified by %s" % m2
+    chk.require(ok, R_SORT, "load_impl|paths.sort before recursion", sorts[0][0].loc(sorts[0][1]) if sorts else b.loc(), detail,
                 "glob(..) -> sort -> for path in &paths { load_impl(path) }")
     # ---- in place, in order
-    entry_loops = [h for h, blks in loops.items()
+    entry_loops = [hh for hh, blks in loops.items()
                    if any(b.term(x)["k"] == "call" and "ParsedIter" in (callee(b.term(x)) or "") for x in blks)]
-    inner = [h for h, blks in loops.items() if rbb in blks]
-    ok = bool(entry_loops) and bool(inner) and all(rbb in loops[h] for h in entry_loops)
+    inner = [hh for hh, blks in loops.items() if rbb in blks]
+    ok = bool(entry_loops) and bool(inner) and all(rbb in loops[hh] for hh in entry_loops)
     detail = "the recursive call is not inside the entry loop"
+    if ok and hbb is not None:
+        ok = all(hbb in loops[hh] for hh in entry_loops)
+        detail = "the include is not resolved inside the entry loop"
     if ok:
-        ih = min(inner, key=lambda h: len(loops[h]))
+        ih = min(inner, key=lambda hh: len(loops[hh]))
         nexts = [(bb, b.term(bb)) for bb in loops[ih] if b.term(bb)["k"] == "call" and callee_def(b.term(bb)) == "std::iter::Iterator::next"
                  and "PathBuf" in b.local_ty(b.term(bb)["args"][0]["place"]["l"])]
         ok = len(nexts) == 1
         detail = "the loop around the recursion does not iterate the match list"
         if ok:
-            names = set()
-            for cn, r in q.chains(b, nexts[0][1]["args"][0]):
-                names |= set(n.rsplit("::", 1)[-1] for n in cn)
-                if not (r.kind == "call" and r.site == gbb) and not (r.kind == "param"):
-                    pass
+            site = gbb if h is b else hbb
+            cs = q.chains(b, nexts[0][1]["args"][0], stop=lambda r: r.kind == "call" and r.site == site)
+            names = set(n.rsplit("::", 1)[-1] for cn, r in cs for n in cn)
             bad = names & {"rev", "skip", "take", "filter", "step_by", "skip_while", "take_while", "filter_map"}
-            ok = not bad and all(any(n.endswith("FileSystem::glob") for n in cn)
-                                 for cn, r in q.chains(b, nexts[0][1]["args"][0]))
+            ok = not bad and bool(cs) and all(r.kind == "call" and r.site == site for cn, r in cs)
             detail = "match list traversed through %s" % sorted(bad) if bad else "loop does not traverse the sorted glob result"
-            # the path loaded is the loop element
             ok = ok and q.all_roots(b, rt["args"][2], lambda r: r.kind == "call" and r.site == nexts[0][0])
     chk.require(ok, R_PLACE, "load_impl|recursion inside the entry loop over the sorted matches", b.loc(rbb), detail,
                 "for entry in parse(..) { Include => for p in &paths { load_impl(p) } }")
@@ -124,39 +170,60 @@ def run(P, chk, tier):
         allv = set(v["name"] for v in adt["variants"])
         ok = labs is not None and "Include" not in labs and set(labs) == allv - {"Include"}
         detail = "callback is reached for entry kinds %s (all kinds: %s)" % (sorted(labs) if labs else None, sorted(allv))
-        ok = ok and rbb not in b.reach_from(cbb, without_blocks=tuple(h for h in entry_loops)) or ok
     chk.require(ok, R_CB, "load_impl|callback for every entry except Include", b.loc(cbs[0][0]) if cbs else b.loc(), detail,
                 "match entry { Include => recurse, _ => callback }")
-    # ---- empty glob
-    emp = [(bb, t) for bb, t in b.calls() if (callee_def(t) or "").endswith("::is_empty") and is_glob_vec(t["args"][0])]
+    # ---- empty glob (in the body that holds the glob call)
+    emp = [(bb, t) for bb, t in h.calls() if (callee_def(t) or "").endswith("::is_empty") and is_glob_vec_h(t["args"][0])]
     ok = len(emp) == 1
     if ok:
         ebb, et = emp[0]
-        sw = et["target"]
-        ds = mir.describe_switch(b, sw)
+        ds = mir.describe_switch(h, et["target"])
         ok = False
         if ds:
             for tb, labs in ds[2].items():
                 if True in labs:
-                    errs = [bb for bb, v, rv in q.ok_err_assignments(b) if v == "Err"]
-                    reach = b.reach_from(tb, without_blocks=tuple(errs))
-                    ok = bool(errs) and not any(b.term(x)["k"] == "return" for x in reach) and rbb not in reach
-        ok = ok and b.must_pass_block(rbb, ebb)
-    chk.require(ok, R_EMPTY, "load_impl|paths.is_empty() -> Err", b.loc(emp[0][0]) if emp else b.loc(),
+                    errs = [bb for bb, v, rv in q.ok_err_assignments(h) if v == "Err"]
+                    reach = h.reach_from(tb, without_blocks=tuple(errs))
+                    ok = bool(errs) and not any(h.term(x)["k"] == "return" for x in reach) and (h is not b or rbb not in reach)
+        if h is b:
+            ok = ok and b.must_pass_block(rbb, ebb)
+        else:
+            oks = [bb for bb, v, rv in q.ok_err_assignments(h) if v == "Ok"]
+            ok = ok and bool(oks) and all(h.must_pass_block(o, ebb) for o in oks)
+    chk.require(ok, R_EMPTY, "load_impl|paths.is_empty() -> Err", h.loc(emp[0][0]) if emp else h.loc(),
                 "an include matching no file does not always end in an error before the recursion", "is_empty() true edge returns Err")
     # ---- path provenance
-    joins = mir.call_sites(b, ["std::path::Path::join"])
+    joins = mir.call_sites(h, ["std::path::Path::join"])
     ok = len(joins) == 1
     detail = "expected one Path::join"
     if ok:
         jt = joins[0][1]
-        recv_ok = q.chain_ok(b, jt["args"][0], is_canon, required=("parent",), stop=True)
-        arg_ok = any(r.fields and "#Include" in r.fields for r in prov(b, jt["args"][1])) or \
-            any("Include" in " ".join(r.fields) for cn, r in q.chains(b, jt["args"][1]))
-        globarg = q.chain_ok(b, gt["args"][1], lambda r: True, required=("join",))
+        if h is b:
+            recv_ok = q.chain_ok(b, jt["args"][0], is_canon, required=("parent",), stop=True)
+            arg_ok = any(r.fields and "#Include" in r.fields for r in prov(b, jt["args"][1])) or \
+                any("Include" in " ".join(r.fields) for cn, r in q.chains(b, jt["args"][1]))
+        else:
+            # in the helper the including file and the include text are parameters: tie them to the call in load_impl
+            cs = q.chains(h, jt["args"][0])
+            params = set(int(r.name.split(":", 1)[0]) for cn, r in cs if r.kind == "param")
+            recv_ok = bool(cs) and all(r.kind == "param" and "parent" in [n.rsplit("::", 1)[-1] for n in cn] for cn, r in cs) and len(params) == 1
+            if recv_ok:
+                k = params.pop()
+                arg = hcall[1]["args"][k - 1]
+                recv_ok = q.chain_ok(b, arg, is_canon, stop=True)
+                if not recv_ok:
+                    detail_recv = mir.prov_strs(b, arg)
+            cs2 = q.chains(h, jt["args"][1])
+            params2 = set(int(r.name.split(":", 1)[0]) for cn, r in cs2 if r.kind == "param")
+            arg_ok = bool(cs2) and all(r.kind == "param" for cn, r in cs2) and len(params2) == 1
+            if arg_ok:
+                k2 = params2.pop()
+                a2 = hcall[1]["args"][k2 - 1]
+                arg_ok = any("#Include" in r.fields for r in prov(b, a2)) or any("Include" in " ".join(r.fields) for cn, r in q.chains(b, a2))
+        globarg = q.chain_ok(h, gt["args"][1], lambda r: True, required=("join",))
         ok = recv_ok and arg_ok and globarg
-        detail = "join receiver from parent(canonical current path)=%s, argument from the include entry=%s, glob pattern from the join=%s" % (recv_ok, arg_ok, globarg)
-    chk.require(ok, R_PATH, "load_impl|target = parent(canonical path).join(include path)", b.loc(joins[0][0]) if joins else b.loc(), detail,
+        detail = "join receiver from parent(canonical path of the file being loaded)=%s, argument from the include entry=%s, glob pattern from the join=%s" % (recv_ok, arg_ok, globarg)
+    chk.require(ok, R_PATH, "load_impl|target = parent(canonical path).join(include path)", h.loc(joins[0][0]) if joins else h.loc(), detail,
                 "path.parent()?.join(include_path) -> glob")
     if cbs:
         cbb, ct = cbs[0]
@@ -165,7 +232,6 @@ def run(P, chk, tier):
         okp = bool(first) and all(is_canon(r) for r in first)
         chk.require(okp, R_PATH, "load_impl|callback(path of the file being loaded, ..)", b.loc(cbb),
                     "the callback's path argument is %s" % sorted(mir.show_root(r) for r in first), "callback(&canonical current path, &ctx, &entry)")
-    # content is read from that same path
     reads = [(bb, t) for bb, t in b.calls() if (callee_def(t) or "").endswith("FileSystem::file_content_utf8")]
     okr = len(reads) == 1 and q.all_roots(b, reads[0][1]["args"][1], is_canon)
     chk.require(okr, R_PATH, "load_impl|reads the canonical current path", b.loc(), "file content is not read from the canonicalised current path", "file_content_utf8(&path)")
@@ -191,7 +257,6 @@ def run(P, chk, tier):
             "<okane_core::load::FakeFileSystem as okane_core::load::FileSystem>::glob"}
     chk.require(want <= users, R_OPTS, "FileSystem::glob|both implementations use glob_match_options", go.loc(),
                 "glob_match_options() is used by %s" % sorted(users), "used by ProdFileSystem::glob and FakeFileSystem::glob")
-    # any glob matching call must take its options from glob_match_options
     for body in P.bodies.values():
         if not q.not_test(body) or not body.key.startswith(("<okane_core::load::", "okane_core::load::")):
             continue
@@ -205,7 +270,6 @@ def run(P, chk, tier):
                 chk.fail(R_OPTS, "%s|default options" % cd, body.loc(bb), "a glob match with default options (wildcards would match dot files / separators)")
     # ---- include stack
     include_stack(P, chk, b, rbb)
-    # the recursion guard obligations of C06's table
     S = surface.Surface(P, chk)
     S.sccs([b])
     S.finish(report_stale=False)
